@@ -19,6 +19,9 @@ type progCase struct {
 	Top     bool        `json:"top,omitempty"`
 	// Fork: the program runs on CPUs created with InitFrom from the loaded ones
 	Fork bool `json:"fork,omitempty"`
+	// SwapAt > 0: before that step the caller assigns the CPU's exported Bus field (cpu65c816): another bus with the same
+	// memory behind it; the bus that was replaced answers from a different memory from then on
+	SwapAt int `json:"swap_at,omitempty"`
 }
 
 func decodeProg(data []byte) (progCase, error) {
@@ -106,6 +109,11 @@ func runLockstep(c *progCase, synth *rig.Synth, impls []rig.CPU, stats *lockstep
 				for _, m := range mems {
 					m.Poke(p.Addr, p.Val)
 				}
+			}
+		}
+		if c.SwapAt > 0 && k == c.SwapAt {
+			for _, cpu := range impls {
+				cpu.SwapBus()
 			}
 		}
 		pre := model
